@@ -341,3 +341,51 @@ def expr_contexts(arg: dict) -> list[dict]:
         o = assemble({"src": pre + "*=0x008000\n" + body})
         out.append({"ctx": ctx, "ok": bool(o["ok"]), "bytes": _bytes_of(o, skip) if o["ok"] else [], "err": o["err"]})
     return out
+
+
+# ------------------------------------------------------------------------------------------
+# IPS writer (C11)
+# ------------------------------------------------------------------------------------------
+def pattern(w: dict) -> bytes:
+    return bytes((w["seed"] + j * w["step"]) % 256 for j in range(w["len"]))
+
+
+def ips_write(arg: dict) -> dict:
+    """Feed a history of writes to the real IPSWriter; log the produced file as bytes."""
+    from a816.writers import IPSWriter
+    f = io.BytesIO()
+    w = IPSWriter(f, arg["header"])
+    refused_at = 0
+    err = None
+    w.begin()
+    for k, wr in enumerate(arg["writes"], 1):
+        try:
+            w.write_block(pattern(wr), wr["addr"])
+        except BaseException as e:  # noqa: BLE001
+            refused_at = k
+            err = f"{type(e).__name__}: {e}"
+            break
+    if not refused_at:
+        w.end()
+    return {"refused_at": refused_at, "err": err, "file": list(f.getvalue()) if not refused_at else []}
+
+
+# ------------------------------------------------------------------------------------------
+# .include_ips (C13)
+# ------------------------------------------------------------------------------------------
+def _ips_program(placement: str, directive: str) -> str:
+    d = {p: "" for p in ("first", "between", "block", "after")}
+    d[placement] = directive + "\n"
+    return ("*=0x008000\n" + d["first"] + "start:\n.db 1, 2\n" + d["between"] + "mid:\n.db 3\n{\n.db 9\n" + d["block"] +
+            "inner:\n.dw inner\n}\n*=0x018000\n" + d["after"] + "tail:\n.db 4\n.dl start, mid, tail\n")
+
+
+def include_ips_case(arg: dict) -> dict:
+    files = {"p.ips": {"bytes": arg["file"]}}
+    delta = arg["delta"]
+    dtxt = f"-0x{-delta:x}" if delta < 0 else f"0x{delta:x}"
+    directive = f".include_ips 'p.ips', {dtxt}"
+    base = assemble({"src": _ips_program(arg["placement"], ""), "files": files})
+    with_ = assemble({"src": _ips_program(arg["placement"], directive), "files": files})
+    pick = lambda o: {"ok": o["ok"], "calls": o["calls"], "labels": o["labels"], "err": o["err"]}  # noqa: E731
+    return {"base": pick(base), "with": pick(with_)}
